@@ -30,7 +30,7 @@ pub const CONSTRAINT_DEGREES: [usize; NUM_CONSTRAINTS] = [
     // Given it is a degree 6 operation, 6 is added to all the individual constraints
     // degree.
     9, // constraint for element validity check
-    7, 7, // 2 constraints in the agg of lower and upper limbs
+    7, 6, // 2 constraints in the agg of lower and upper limbs
     7, // constraint for U32SPLIT operation
     7, // constraint for U32ADD  operation
     7, // constraint for U32ADD3 operation
@@ -295,8 +295,9 @@ pub fn enforce_limbs_agg<E: FieldElement<BaseField = Felt>>(
     op_flag: &OpFlags<E>,
     limbs: &LimbCompositions<E>,
 ) -> usize {
-    // flag of u32 arithmetic operation excluding the `U32DIV` operation.
-    let u32op_ex_div_assert2 = op_flag.u32_rc_op() - op_flag.u32div() - op_flag.u32assert2();
+    // flag of u32 operations excluding the `U32DIV` operation. `U32ASSERT2` is included: it leaves
+    // the stack unchanged, so the limbs are tied to its two operands.
+    let u32op_ex_div_assert2 = op_flag.u32_rc_op() - op_flag.u32div();
 
     let u32op_ex_div_assert2_sub = u32op_ex_div_assert2 - op_flag.u32sub();
 
